@@ -142,6 +142,13 @@ type EmbShadow struct {
 	Count NInt
 }
 
+// EmbShadow2: the same with the hiding fields declared before the embedded struct.
+type EmbShadow2 struct {
+	Owner string
+	Count NInt
+	shadowT
+}
+
 // EmbAmb: X is ambiguous (neither is promoted), OnlyA / OnlyB are promoted.
 type EmbAmb struct {
 	ambA
@@ -242,6 +249,7 @@ func registerThird() {
 	reg[MidX]("c12_midx")
 	reg[EmbMidX]("c12_embmidx")
 	reg[EmbShadow]("c12_embshadow")
+	reg[EmbShadow2]("c12_embshadow2")
 	reg[EmbAmb]("c12_embamb")
 	reg[EmbPtr]("c12_embptr")
 	reg[EmbPtrNoExp]("c12_embptrnoexp")
@@ -267,6 +275,7 @@ func registerThird() {
 		{t: rt[MidX](), w: 3, gate: gEmbedded},
 		{t: rt[EmbMidX](), w: 6, gate: gEmbedded},
 		{t: rt[EmbShadow](), w: 4, gate: gEmbedded},
+		{t: rt[EmbShadow2](), w: 4, gate: gEmbedded},
 		{t: rt[EmbAmb](), w: 4, gate: gEmbedded},
 		{t: rt[EmbPtr](), w: 6, gate: gEmbedded},
 		{t: rt[EmbPtrNoExp](), w: 3, gate: gEmbedded},
